@@ -18,6 +18,7 @@ let why = function
   | 7 -> "log number changed without a memtable switch"
   | 8 -> "background_compaction_scheduled cleared without broadcast or by a client thread"
   | 9 -> "background call scheduled while shutting down or after bg_error"
+  | 10 -> "background call rescheduled itself without the final broadcast"
   | 11 -> "manual compaction registered by the background thread"
   | 12 -> "shutting_down reset"
   | 13 -> "bg_error reset"
